@@ -29,7 +29,16 @@ def make_raw(n, seed):
       's': np.array([b'k%d' % ((i + o) % 90) for i in range(n)], dtype='S3'),
       't': np.array(['u%d' % ((i + o) % 9) for i in range(n)], dtype='U2').reshape(n, 1),
       'c': (np.arange(n, dtype=np.complex64) + 1 + 1j * (o + 1)),
+      # memory layouts other than C-contiguous: Fortran order, a strided view of a larger array, a read-only array
+      'g': np.asfortranarray(np.arange(n * 4, dtype=np.float64).reshape(n, 2, 2) + 1 + o),
+      'h': (np.arange(2 * n * 3, dtype=np.int16).reshape(2 * n, 3) + 1 + o)[::2],
+      'r': _readonly(np.arange(n, dtype=np.float32) * 0.25 + 1 + o),
   }
+
+
+def _readonly(a):
+  a.flags.writeable = False
+  return a
 
 
 def _add(x):
@@ -260,6 +269,9 @@ def plan(ctx):
   ctx.run('seq', [{'N': -1, 'via': via, 'B': bs, 'buckets': k, 'mode': mode, 'chain': chain, 'seed': ctx.seed}
                   for via in VIAS for bs in (1, 2, 3, 4, 5) for chain in ('none', 'cast_add')
                   for mode, ks in (('padded', (1, 2, 3)), ('plain_keep', (1,)), ('plain_drop', (1,))) for k in ks])
+  # a few sizes far above the exhaustively covered range (chunking thresholds in an implementation would sit there)
+  ctx.run('seq', [{'N': n, 'B': b, 'buckets': k, 'mode': m, 'chain': 'cast_add', 'seed': ctx.seed}
+                  for n, b in ((1000, 64), (4097, 512), (65537, 4096)) for m, k in (('padded', 3), ('plain_keep', 1), ('plain_drop', 1))])
   ctx.run('routes', [{'N': n, 'mode': m, 'seed': ctx.seed} for n in ((0, 1, 5, 7, 9) if thorough else (0, 5, 7))
                      for m in ('padded', 'plain')])
   ctx.extra['bounds'] = {'N': [min(ns), max(ns)], 'batch_size': [min(bss), max(bss)],
